@@ -796,6 +796,52 @@ mod proofs {
         std::mem::forget(store);
         std::mem::forget(r);
     }
+
+    // C13 — RFC 9113 8.1: "Trailers MUST NOT include pseudo-header fields (Section 8.3). An endpoint that receives
+    // pseudo-header fields in trailers MUST treat the request or response as malformed."  A malformed message is a stream
+    // error PROTOCOL_ERROR and nothing of it is handed to the application.
+    // Pre-state: a stream whose body is being received (open or half-closed local), content-length satisfied or absent.
+    // Input: a trailers HEADERS frame (END_STREAM set, empty regular field section) that carries `:status` (response
+    // side) or `:method` (request side), or no pseudo-header at all (the well-formed twin).
+    // @harness id=recv_recv_trailers_pseudo props=C13 kind=complete tier=attempt timeout=600 fn=Recv::recv_trailers
+    #[kani::proof]
+    #[kani::unwind(4)]
+    fn recv_recv_trailers_pseudo() {
+        use crate::proto::streams::state::verif_kani::state_shape;
+        use crate::proto::streams::stream::verif_kani::any_stream_with_state;
+        let which: u8 = kani::any();
+        kani::assume(which < 3);
+        let pseudo = match which {
+            0 => crate::frame::Pseudo::default(),
+            1 => crate::frame::Pseudo::response(http::StatusCode::OK),
+            _ => crate::frame::Pseudo { method: Some(http::Method::GET), ..Default::default() },
+        };
+        let id = StreamId::from(1);
+        let mut frame = crate::frame::Headers::new(id, pseudo, http::HeaderMap::new());
+        frame.set_end_stream();
+        let mut recv = mk_recv(65_535, 65_535, 0, Ok(StreamId::from(3)));
+        // shape 3 = Open{..}, 4 = HalfClosedLocal(..): the two states in which trailers can legally arrive
+        let shape: u8 = if kani::any() { 3 } else { 4 };
+        let mut store = Store::new();
+        let mut s = any_stream_with_state(id, state_shape(shape, 0));
+        s.content_length = crate::proto::streams::stream::ContentLength::Omitted;
+        let key = crate::proto::streams::store::verif_kani::put_unindexed(&mut store, s);
+        let mut ptr = store.resolve(key);
+        let r = recv.recv_trailers(frame, &mut ptr);
+        if which == 0 {
+            assert!(r.is_ok(), "recv.recv_trailers.trailers_without_pseudo_fields_are_accepted");
+            assert!(!ptr.pending_recv.is_empty(), "recv.recv_trailers.accepted_trailers_are_queued_for_the_application");
+        } else {
+            assert!(matches!(r, Err(ref e) if matches!(sig(e), (0, 1, 1, 1, _))), "recv.recv_trailers.pseudo_header_in_trailers_is_stream_protocol_error");
+            assert!(ptr.pending_recv.is_empty(), "recv.recv_trailers.malformed_trailers_are_not_handed_to_the_application");
+        }
+        kani::cover!(which == 1, "cover.status_in_trailers");
+        kani::cover!(which == 0 && r.is_ok(), "cover.well_formed_trailers");
+        std::mem::forget(r);
+        std::mem::forget(store);
+        std::mem::forget(recv);
+    }
+
 }
 
 /// Stub for `impl From<io::Error> for proto::Error` (renders the message with `to_string()`): keeps the kind.
